@@ -556,6 +556,8 @@ pub fn reentrant_calls(
         0 => {
             out.push(("open_volume", cls(fs.open_volume(0, fl))));
             out.push(("open_volume", cls(fs.open_volume(1, fl))));
+            // a partition number that cannot exist: the lock comes first all the same
+            out.push(("open_volume", cls(fs.open_volume(9, fl))));
         }
         1 => {
             if let Some(v) = v {
